@@ -230,8 +230,34 @@ def run_shard(shard, tier, seed):
                     for clause, detail in probs[:3]:
                         rep.violation(f"{op}/mixed-list/{clause}", f"{cfg}: {op} of {len(names)} requests packing to about {target} bytes: {detail}",
                                       {"shard": list(shard), "tag": None, "op": op, "path": target, "choices": []})
+            # lists spanning several multi-service packets: k equal medium requests for every k up to ~4 packets,
+            # and a filled first packet followed by a second one that fills up
+            for base2 in (20, 80, 150, 199):
+                per_packet = max(1, S // (base2 + 12))
+                for k in list(range(1, min(4 * per_packet + 3, 120))):
+                    if S == 4000 and k % 3 and k < 4 * per_packet - 6:
+                        continue
+                    names = [f"m{base2}{{{base2}}}"] * k + ["small"]
+                    for op in ("read", "write"):
+                        n_ev = len(t.events)
+                        if op == "read":
+                            out = call(d.read, *names)
+                        else:
+                            pre = proj.snapshot()
+                            out = call(d.write, *[(nm, [1] * base2) if "{" in nm else (nm, 9) for nm in names])
+                            proj.restore(pre)
+                        probs = [(tag[4:], detail) for tag, detail in t.events[n_ev:] if tag.startswith("C04")]
+                        if out[0] != "ok":
+                            probs.append(("exception", f"{op} raised {out!r:.100}"))
+                        elif not all(bool(g) for g in out[1]):
+                            bad = [i for i, g in enumerate(out[1]) if not bool(g)]
+                            probs.append(("request-failed", f"{len(bad)} of {len(names)} requests failed, first #{bad[0]}: {out[1][bad[0]].error!r:.80}"))
+                        rep.case((cfg, op, "many", base2, k), outcome=f"ok:{op}/many" if not probs else probs[0][0])
+                        for clause, detail in probs[:2]:
+                            rep.violation(f"{op}/multi-packet-list/{clause}", f"{cfg}: {op} of {k} x {base2}-byte requests + 1: {detail}",
+                                          {"shard": list(shard), "tag": None, "op": op, "path": ["many", base2, k], "choices": []})
             call(d.close)
-        rep.sample({"config": (S, pers, "mixed"), "targets": f"{S - 48}..{S + 8}"})
+        rep.sample({"config": (S, pers, "mixed"), "targets": f"{S - 48}..{S + 8}", "multi_packet_lists": "k x {20,80,150,199}-byte requests, k up to 4 packets"})
     return rep
 
 
